@@ -290,6 +290,11 @@ func (r *Reader) Inspect(validateBlockHash bool) (Stats, error) {
 			if err != nil {
 				return Stats{}, err
 			}
+			if lr, ok := blockReader.(*io.LimitedReader); ok && lr.N != 0 {
+				// The payload ended before the section did: the hash above covers
+				// fewer bytes than the section length announces.
+				return Stats{}, io.ErrUnexpectedEOF
+			}
 			var gotCid cid.Cid
 			switch cp.Version {
 			case 0:
